@@ -1406,7 +1406,20 @@ def plan(tier, seed):
     dts = (f' x map dtype {{float64, float32 (every NaN pattern; compared at max(format step, 8 eps32 |a|)), int32, int16 (NaN-free classes that fit)}}')
     cells = (f'{sh} x value classes {VCLASSES} (a C-order ramp with the largest sample marking corner [0,0]; seeded amplitude) '
              f'x NaN patterns {NANPATS} (degenerate shape/pattern pairs dropped)' + dts)
+    # size thresholds (writers / readers that stream or convert in blocks of 2^16 .. 2^20 samples): not closed over sizes
+    lg_shapes = [[300, 301], [700, 600], [1500, 300]] + ([[1030, 1031]] if tier == 'quick' else [[1030, 1031], [2, 600000], [2100, 1000]])
+    large = []
+    for shp in lg_shapes:
+        for v, pat in (('mixed', 'corner'), ('neg', 'checker')):
+            large.append({'writer': 'zygo', 'shape': shp, 'v': v, 'nan': pat, 'dx': 0.5, 'wvl': 0.6328})
+            large.append({'writer': 'ifg', 'shape': shp, 'v': v, 'nan': pat, 'dx': 0.5, 'wvl': 0.6328})
+            if shp[0] * shp[1] <= 500000:
+                large.append({'writer': 'codev', 'shape': shp, 'v': v, 'nan': pat, 'typ': 'SUR', 'nnb': 0, 'comment': 'default'})
     return [
+        ScopeUnit('rt_large', large, run_roundtrip,
+                  f'size-threshold alphabet of map shapes {lg_shapes} (above 2^16, 2^18 and 2^20 samples, not multiples of them, tall and wide) x value class / NaN pattern {{mixed/corner, neg/checker}} '
+                  'through write_zygo_dat, Interferogram.save_zygo_dat (and write_codev_gridint up to 5e5 samples) and back: the same round-trip oracle on EVERY sample (orientation, NaN set, one quantisation step); not closed over sizes',
+                  reset=_reset),
         ScopeUnit('rt_zygo', zy, run_roundtrip,
                   f'{cells} x dx {DXS + DXS_ZERO + DXS_FINE} (0 = uncalibrated, must come back exactly 0; fine non-round spacings; dx and wavelength compared at 2^-23 relative) x wavelength {WVLS} x argument form {{wavelength by keyword, positional, OMITTED (file must report the documented 0.6328 um), all optional arguments explicit}}: io.write_zygo_dat -> io.read_zygo_dat; the array passed in must be bit-identical after the write; shape, orientation, NaN set, '
                   '|a-b| <= wavelength/32768 (+4 eps32 |a|), dx and wavelength at float32 precision; non-trivial unless the map is all-zero without NaN',
